@@ -106,7 +106,7 @@ def replay(ctx, case):
 
 
 MANIFEST = dict(
-    text="Proof: C18_fn_state - for every n >= 2, every non-empty list of pairwise distinct n-bit inputs in any order, every output assignment and every N', the gate list FnPointsModel.fn_gates run from |0..0> has amplitude -(1/sqrt m) e^{2 pi i s/N'} on the basis state holding the input in the x register with all work qubits 0 (C18_target_bits) and 0 elsewhere; proved by a sound sparse simulation (FnSem.sim_sound) and an invariant over the points; C18_theta / C18_split are the S-matrix bookkeeping. Tie: the instruction list of FnPointsInitialize is compared inside Coq with FnPointsModel.fn_gates for dictionaries in every order (cu parameters bit-identical to the closed forms, cu matrix compared with the theorem's). The full state is also evaluated.",
+    text="Proof: C18_fn_state - for every n >= 2, every non-empty list of pairwise distinct n-bit inputs in any order, every output assignment and every N', the gate list FnPointsModel.fn_gates run from |0..0> has amplitude -(1/sqrt m) e^{2 pi i s/N'} on the basis state holding the input in the x register with all work qubits 0 (C18_target_bits) and 0 elsewhere; every such coefficient has squared modulus 1/m (C18_uniform_magnitude); proved by a sound sparse simulation (FnSem.sim_sound) and an invariant over the points; C18_theta / C18_split are the S-matrix bookkeeping. Tie: the instruction list of FnPointsInitialize is compared inside Coq with FnPointsModel.fn_gates for dictionaries in every order (cu parameters bit-identical to the closed forms, cu matrix compared with the theorem's). The full state is also evaluated.",
     note="Modelled, not verified: Qiskit's x/cx/ccx/cu matrices (cu compared numerically); the constructor's choice of N'.",
     technique='Coq proof (sparse-simulation soundness + loop invariant over the points, all n) + instruction-list correspondence (vm_compute) + state-vector evaluation',
     design_ref='DESIGN.md section 4, C18')
